@@ -88,8 +88,9 @@ type UpdateValidator interface {
 }
 
 type checkConformanceFunc func(
-	oldDecl *ast.CompositeDeclaration,
-	newDecl *ast.CompositeDeclaration,
+	oldConformances []*ast.NominalType,
+	newConformances []*ast.NominalType,
+	newIdentifier ast.Identifier,
 )
 
 type ContractUpdateValidator struct {
@@ -364,9 +365,25 @@ func checkDeclarationUpdatability(
 		checkConformance,
 	)
 
-	if newDecl, ok := newDeclaration.(*ast.CompositeDeclaration); ok {
+	switch newDecl := newDeclaration.(type) {
+	case *ast.CompositeDeclaration:
 		if oldDecl, ok := oldDeclaration.(*ast.CompositeDeclaration); ok {
-			checkConformance(oldDecl, newDecl)
+			checkConformance(
+				oldDecl.Conformances,
+				newDecl.Conformances,
+				newDecl.Identifier,
+			)
+		}
+
+	case *ast.InterfaceDeclaration:
+		// The conformances of an interface are inherited by all types conforming to the interface:
+		// Removing one removes the conformance from all of them.
+		if oldDecl, ok := oldDeclaration.(*ast.InterfaceDeclaration); ok {
+			checkConformance(
+				oldDecl.Conformances,
+				newDecl.Conformances,
+				newDecl.Identifier,
+			)
 		}
 	}
 
@@ -694,17 +711,15 @@ func checkEnumCases(
 }
 
 func (validator *ContractUpdateValidator) checkConformance(
-	oldDecl *ast.CompositeDeclaration,
-	newDecl *ast.CompositeDeclaration,
+	oldConformances []*ast.NominalType,
+	newConformances []*ast.NominalType,
+	newIdentifier ast.Identifier,
 ) {
 
 	// Here it is assumed enums will always have one and only one conformance.
 	// This is enforced by the checker.
 	// Therefore, below check for multiple conformances is only applicable
 	// for non-enum type composite declarations. i.e: structs, resources, etc.
-
-	oldConformances := oldDecl.Conformances
-	newConformances := newDecl.Conformances
 
 	// All the existing conformances must have a match. Order is not important.
 	// Having extra new conformance is OK. See: https://github.com/onflow/cadence/issues/1394
@@ -714,6 +729,7 @@ func (validator *ContractUpdateValidator) checkConformance(
 	//  - Someone stores an array of type `[{I}]` with `T:I` objects inside.
 	//  - Later T’s conformance to `I` is removed.
 	//  - Now `[{I}]` contains objects if `T` that does not conform to `I`.
+	// The same holds for the conformances of an interface `J: I`, which all `T: J` inherit.
 
 	for _, oldConformance := range oldConformances {
 		found := false
@@ -733,9 +749,9 @@ func (validator *ContractUpdateValidator) checkConformance(
 			oldConformanceID := validator.oldTypeID(oldConformance)
 
 			validator.report(&ConformanceMismatchError{
-				DeclName:           newDecl.Identifier.Identifier,
+				DeclName:           newIdentifier.Identifier,
 				MissingConformance: string(oldConformanceID),
-				Range:              ast.NewUnmeteredRangeFromPositioned(newDecl.Identifier),
+				Range:              ast.NewUnmeteredRangeFromPositioned(newIdentifier),
 			})
 
 			return
